@@ -51,6 +51,7 @@ class Externals:
         self.obj_dynamic = {}      # obj class tag -> fn(engine, ctx, base, attr) -> Value | None
         self.counter_fields = {}   # (obj, field) of a Map[k -> Map] whose inner key 0 holds an itertools.count -> (obj, ghost field) of its next value
         self.counter_atom = None
+        self.rec_classes = {}      # RecT name -> (module, class) whose methods apply to records of that type
 
     def note(self, text):
         self.assumed.add(text)
@@ -179,6 +180,20 @@ class Externals:
                     if source.find_method(m_, c_, attr):
                         return iter([(ctx, Fn('builtin', name=h.cls + '.' + attr,
                                               impl=lambda e, c, a, k, _b=base, _m=m_, _c=c_, _a=attr: self.call_rec_method(e, c, _b, _m, _c, _a, a, k)))])
+                    ca = source.class_attr(m_, c_, attr)
+                    if ca is not None:
+                        key = ('classattr', h.cls, attr)
+                        if key in self.module_attrs:
+                            return iter([(ctx, self.module_attrs[key](eng, ctx))])
+                        return eng.ev(ca, ctx)
+        if isinstance(base, Ref):
+            ty = eng.ref_type(base)
+            rty = ty.inner if isinstance(ty, OptT) else ty
+            if isinstance(rty, RecT) and rty.name in self.rec_classes:
+                m_, c_ = self.rec_classes[rty.name]
+                if source.find_method(m_, c_, attr):
+                    return iter([(ctx, Fn('builtin', name='%s.%s.%s' % (m_, c_, attr),
+                                          impl=lambda e, c, a, k, _b=base, _m=m_, _c=c_, _a=attr: self.call_rec_method(e, c, _b, _m, _c, _a, a, k)))])
         if isinstance(base, S) and base.sort == 'V':
             # attribute of an opaque object: a method call is recorded by call_opaque on meth(obj, name)
             t = meth(base.t, atom(attr))
@@ -249,12 +264,18 @@ class Externals:
             self.note('`k in x` on an opaque value is the dict/sequence membership predicate vhas(x, k); raises TypeError if x is not a container')
             k = eng.to_v(ctx, key)
             def gen():
-                iscont = z3.Or(*[smt.kind(cont.t) == kk for kk in (smt.K_DICT, smt.K_LIST, smt.K_TUPLE, smt.K_STR, smt.K_BYTES)])
-                for c, ok in eng.branch(ctx, iscont):
-                    if ok:
-                        yield c, smt.vhas(cont.t, k)
-                    else:
-                        yield c, Raised(Exc('TypeError'))
+                isseq = z3.Or(smt.kind(cont.t) == smt.K_LIST, smt.kind(cont.t) == smt.K_TUPLE)
+                for c0, sq in eng.branch(ctx, isseq):
+                    if sq:
+                        p = z3.Int('in_p')
+                        yield c0, z3.Exists([p], z3.And(p >= 0, p < smt.vlen(cont.t), smt.vseq(cont.t)[p] == k))
+                        continue
+                    iscont = z3.Or(*[smt.kind(cont.t) == kk for kk in (smt.K_DICT, smt.K_STR, smt.K_BYTES)])
+                    for c, ok in eng.branch(c0, iscont):
+                        if ok:
+                            yield c, smt.vhas(cont.t, k)
+                        else:
+                            yield c, Raised(Exc('TypeError'))
             return gen()
         return None
 
@@ -398,6 +419,16 @@ class Externals:
         if name.startswith('type:'):
             yield from BUILTINS[name[5:]].impl(eng, ctx, args, kwargs)
             return
+        if name.startswith('socketio.') and name.count('.') == 2:
+            _, m_, c_ = name.split('.')
+            found = source.find_method(m_, c_, '__init__')
+            rec = ctx.alloc('rec', {}, cls=name)
+            if not found:
+                yield ctx, rec
+                return
+            for c, r in self.call_rec_method(eng, ctx, rec, m_, c_, '__init__', args, kwargs):
+                yield c, (r if isinstance(r, Raised) else rec)
+            return
         raise Unsupported('construction of %s' % name)
 
     # ---------------------------------------------------------------- application code
@@ -430,8 +461,6 @@ class Externals:
             yield c, S(r)
 
     def callable_cond(self, eng, ctx, t):
-        if self.counter_atom is not None:
-            return t != self.counter_atom       # an itertools.count object is not callable
         return z3.BoolVal(True)
 
     # ---------------------------------------------------------------- misc hooks
@@ -761,6 +790,18 @@ def _iscoro(eng, ctx, args, kwargs):
         yield ctx, S(isawaitable(x.t))
     else:
         yield ctx, S(z3.BoolVal(False))
+
+
+@builtin('asyncio.create_task')
+def _create_task(eng, ctx, args, kwargs):
+    (x,) = args.items()
+    eng.ext.note('R3: asyncio.create_task(coro) runs the coroutine at the point of creation; tasks start in creation order and a send does not suspend before queuing')
+    yield ctx, x
+
+
+@builtin('asyncio.wait')
+def _aio_wait(eng, ctx, args, kwargs):
+    yield ctx, S(NONE)
 
 
 @builtin('set')
